@@ -40,7 +40,8 @@ EXPLANATION = ('bounded symbolic execution (engine symrun) of the real Dataset a
                'arrays of z3-backed extended reals; each clause is decided by z3 (QF_NRA) per path')
 
 OPS = ['add_ds', 'sub_ds', 'mul_ds', 'div_ds', 'add_c', 'sub_c', 'mul_c', 'div_c',
-       'add_arr', 'sub_arr', 'mul_arr', 'div_arr', 'copy', 'squeeze']
+       'add_arr', 'sub_arr', 'mul_arr', 'div_arr', 'copy', 'squeeze', 'mul_np', 'div_np']
+NP_SCALARS = [np.int64(3), np.float32(0.5), np.int32(-2), np.float64(1.5)]       # numpy.generic factors (documented as supported)
 
 
 def _mk_bins(ex, shape, kind, tag):
@@ -135,6 +136,8 @@ def _apply(ex, ds, shape, binkind, step):
         obins = None
         if ds.bins and ex.flag(f'{tag}obins'):
             obins = OrderedDict((k, b) for k, b in ds.bins.items())
+        elif not ds.bins and shape and ex.flag(f'{tag}obins-although-left-has-none'):
+            obins = _mk_bins(ex, shape, 'edges', tag)          # accepted by the consistency check; the LEFT bins (none) are kept
         other = Dataset(ov, oe, bins=obins, name='other', what=ds.what if ex.flag(f'{tag}samewhat') else 'w2')
         other_snap = _snapshot(other)
         rv, re_ = other_snap['vcells'], other_snap['ecells']
@@ -146,6 +149,9 @@ def _apply(ex, ds, shape, binkind, step):
         # array: the symbolic constant is handed over as a 0-d array (stated in ASSUMPTIONS)
         other = SymArray(c) if ex.symbolic else c
         b_const = c
+    elif op.endswith('_np'):
+        other = NP_SCALARS[ex.choice(len(NP_SCALARS), f'{tag}np-scalar')]
+        b_const = float(other)
     elif op.endswith('_arr'):
         oa = sym_real_array(ex, f'{tag}arr', shape)
         if op == 'div_arr':
@@ -220,7 +226,7 @@ def _apply(ex, ds, shape, binkind, step):
                 t2 = a * eb / (b * b)
                 econds.append(O.eq(rerrs[i] * rerrs[i], t1 * t1 + t2 * t2))
         else:
-            b = b_const if op.endswith('_c') else arr_cells[i]
+            b = b_const if op.endswith(('_c', '_np')) else arr_cells[i]
             if kind == 'add':
                 vconds.append(O.eq(rvals[i], a + b))
                 econds.append(O.eq(rerrs[i], ea))
